@@ -85,10 +85,28 @@ SPEC = {
 
 CLAIM = {
     "category": "proof",
-    "text": "see lean/ParolModel/Props/C07.lean",
-    "design_ref": "DESIGN.md §6 C07",
-    "note": "",
-    "technique": "Lean 4 proof over hand-written model + differential correspondence check + verified-semantics oracle on real automata",
+    "text": "Theorems (lean/ParolModel/Props/C07.lean), for ALL tuple sets, ALL token strings and ALL hash-map iteration orders of the model: "
+            "trie_accepts_iff_tuple (the trie of a non-empty tuple set S for production p predicts p on exactly the members of S); "
+            "unite_accepts (uniting a further production's trie into the automaton of non-empty, pairwise disjoint, prefix-free sets predicts, on every "
+            "string, the production whose set contains it; unite_not_prefix_free_counterexample: without prefix-freeness the unconditional coin_state "
+            "erases an accepting mark); minimize_preserves_run (AdjacencyList::minimize + renumber_states + as_compiled_dfa never change the production "
+            "predicted on any string, on automata whose accepting states are leaves); compiled_wf (the output is strictly sorted by (from, terminal), k "
+            "unchanged - the hypothesis of C08's theorems); compiled_accepts_iff_tuple (main statement: the compiled, minimised automaton of a "
+            "non-terminal predicts p on w iff w is one of p's lookahead strings, for every w); compiled_k_ge_tuple_length (k covers every tuple, so C08's "
+            "eval reads far enough; unite_k_unfixed_counterexample keeps the pre-repair behaviour of unite as a checked counterexample); "
+            "minimize_order_indep_partial (results under any two iteration orders predict the same on every string, same k, both sorted). The full "
+            "syntactic order independence (MinimizeOrderIndep) is stated but not proved; it is checked per case (request `ord`: model under 6 choice "
+            "streams, real code 8 repetitions). Tied to the code by exact differential runs (state numbering included) through the real "
+            "from_k_tuples/unite/CompiledDFA::from_lookahead_dfa on random tuple sets and automata and through the whole real pipeline on random LL(k) "
+            "grammars; every real automaton is also judged directly by the reference run against the real tuple sets (all strings up to depth+1).",
+    "design_ref": "DESIGN.md §6 C07 (and C24 for order independence)",
+    "note": "The theorems speak about successful results of the model (it returns none/error where the Rust code would panic or report a conflict); "
+            "that the model succeeds on accepted inputs is shown by examples and observed on every explored case (model reply = implementation reply), "
+            "not proved in general. Trusted: Lean kernel (propext, Quot.sound, Classical.choice), faithfulness of the hand-written model as observed by "
+            "the differential run, harness and orchestrator, and that generate_parser_export_model copies CompiledDFA unchanged. Observation outside the "
+            "property's hypotheses: on automata with accepting inner states of several productions the real minimize is hash-order dependent "
+            "(Neighbors::append deduplicates, rename_neighbor does not); such automata cannot arise from prefix-free tuple sets.",
+    "technique": "Lean 4 proof over hand-written model + differential correspondence check + reference-semantics oracle on real automata",
 }
 
 
